@@ -13,6 +13,7 @@ import argparse, glob, json, os, subprocess, sys, shutil, threading, queue, time
 HERE = os.path.dirname(os.path.dirname(os.path.abspath(__file__)))
 BASE = "/var/tmp/verif-mut"
 KIND = "x"
+QUIET = False
 ALL = ["C%02d" % i for i in range(1, 29) if i != 4]
 
 
@@ -33,7 +34,13 @@ def worker(i, q, results, all_checks):
         sh(["git", "-C", repo, "checkout", "--detach", sh(["git", "-C", "/repo", "rev-parse", "HEAD"]).stdout.strip()])
         sh(["git", "-C", repo, "checkout", "--", "."])
         sh(["git", "-C", repo, "clean", "-fdq", "-e", "target"])
-    env = dict(os.environ, VERIF_REPO=repo, VERIF_WORK=os.path.join(wdir, "work"), VERIF_EVIDENCE=os.path.join(wdir, "evidence"))
+    env = dict(os.environ, VERIF_REPO=repo, VERIF_WORK=os.path.join(wdir, "work"), VERIF_EVIDENCE=os.path.join(wdir, "evidence"), VERIF_TIER="quick")
+    env.pop("VERIF_CONFIG", None)
+    warm = os.path.join(HERE, ".work", "target")
+    if not os.path.isdir(os.path.join(wdir, "work", "target")) and os.path.isdir(warm):
+        # dependency artefacts are path-independent: start from the main fact build's target dir instead of a cold build
+        os.makedirs(os.path.join(wdir, "work"), exist_ok=True)
+        sh(["cp", "-a", warm, os.path.join(wdir, "work", "target")])
     while True:
         try:
             kind, name, patch, props, expect_prop = q.get_nowait()
@@ -45,11 +52,12 @@ def worker(i, q, results, all_checks):
         if r.returncode != 0:
             rec["error"] = r.stdout[-400:]
             results.append(rec)
-            print("%-8s %-62s CANNOT APPLY" % (kind, name[:62]), flush=True)
+            if not QUIET:
+                print("%-8s %-62s CANNOT APPLY" % (kind, name[:62]), flush=True)
             continue
         try:
-            for c in (ALL if all_checks or kind == "seeded" else props):
-                out = sh([os.path.join(HERE, "check"), c], env=env)
+            for c in (ALL if all_checks else props):
+                out = sh([os.path.join(HERE, "check"), c, "--tier", "quick"], env=env)
                 fired = ("VIOLATION property=%s" % c) in out.stdout
                 first = [l.strip() for l in out.stdout.splitlines() if l.startswith("  %s:" % c)]
                 rec["checks"][c] = {"fired": fired, "rc": out.returncode, "first": first[0][:300] if first else "", "n": len(first)}
@@ -67,7 +75,53 @@ def worker(i, q, results, all_checks):
             ok = all(rec["checks"].get(c, {}).get("fired") for c in expect_prop) if expect_prop else bool(fired)
         rec["ok"] = ok
         results.append(rec)
-        print("%-8s %-62s %-4s fired=%s%s" % (kind, name[:62], "ok" if ok else "FAIL", ",".join(fired) or "-", " (does not compile)" if cannot else ""), flush=True)
+        if not QUIET:
+            print("%-8s %-62s %-4s fired=%s%s" % (kind, name[:62], "ok" if ok else "FAIL", ",".join(fired) or "-", " (does not compile)" if cannot else ""), flush=True)
+
+
+def collect(kind, flt=""):
+    items = []
+    if kind in ("mutants", "benign"):
+        for p in sorted(glob.glob(os.path.join(HERE, "selftest", kind, "*.diff"))):
+            base = os.path.basename(p)
+            if flt in base:
+                props = base.split("__")[0].split("+")
+                items.append((kind, base, p, props, props))
+    elif kind == "seeded":
+        for d in sorted(glob.glob(os.path.join(HERE, "seeded", "*"))):
+            p = os.path.join(d, "patch.diff")
+            if os.path.exists(p) and flt in d:
+                meta = json.load(open(os.path.join(d, "meta.json")))
+                k = "benign" if meta.get("benign") else "seeded"
+                items.append((k, os.path.basename(d), p, ALL, [] if k == "benign" else [meta["property"]]))
+    return items
+
+
+def run_items(items, jobs, kind_dir, all_checks=False, quiet=False):
+    """Library entry (used by `./check --tier thorough`): runs the given patches off-tree and returns the records."""
+    global KIND, QUIET
+    KIND = kind_dir
+    QUIET = quiet
+    q = queue.Queue()
+    for it in items:
+        q.put(it)
+    results = []
+    ths = [threading.Thread(target=worker, args=(i, q, results, all_checks)) for i in range(min(jobs, max(1, len(items))))]
+    for t in ths:
+        t.start()
+    for t in ths:
+        t.join()
+    return sorted(results, key=lambda r: r["name"])
+
+
+def cleanup(kind_dir):
+    base = os.path.join(BASE, kind_dir)
+    if not os.path.isdir(base):
+        return
+    for w in os.listdir(base):
+        sh(["git", "-C", "/repo", "worktree", "remove", "--force", os.path.join(base, w, "repo")])
+    shutil.rmtree(base, ignore_errors=True)
+    sh(["git", "-C", "/repo", "worktree", "prune"])
 
 
 def main():
@@ -79,20 +133,7 @@ def main():
     a = ap.parse_args()
     global KIND
     KIND = a.kind
-    items = []
-    if a.kind in ("mutants", "benign"):
-        for p in sorted(glob.glob(os.path.join(HERE, "selftest", a.kind, "*.diff"))):
-            base = os.path.basename(p)
-            if a.filter in base:
-                props = base.split("__")[0].split("+")
-                items.append((a.kind, base, p, props, props))
-    elif a.kind == "seeded":
-        for d in sorted(glob.glob(os.path.join(HERE, "seeded", "*"))):
-            p = os.path.join(d, "patch.diff")
-            if os.path.exists(p) and a.filter in d:
-                meta = json.load(open(os.path.join(d, "meta.json")))
-                kind = "benign" if meta.get("benign") else "seeded"
-                items.append((kind, os.path.basename(d), p, ALL, [] if kind == "benign" else [meta["property"]]))
+    items = collect(a.kind, a.filter)
     q = queue.Queue()
     for it in items:
         q.put(it)
